@@ -6,7 +6,7 @@ all=""; if [ "${1:-}" = "--all" ]; then all=1; shift; fi
 for d in ${@:-seeded/*/* seeded2/*/*}; do
   [ -f $d/patch.diff ] || continue
   id=$(basename $(dirname $d))
-  if [ -n "$all" ]; then out=$d/result.all.txt; props=""; else out=$d/result.txt; props=$id; fi
+  if [ -n "$all" ]; then out=$d/result.all.txt; props="$(tools/relevant_props.sh $d/patch.diff) $id"; else out=$d/result.txt; props=$id; fi
   [ -f $out ] && [ -z "${FORCE:-}" ] && continue
   tools/trypatch.sh $d/patch.diff $props > $out 2>&1
   echo "$d: alarms: $(grep 'rc=1' $out | cut -d' ' -f1 | tr '\n' ' ') $(grep -v 'rc=' $out | head -2 | tr '\n' ' ')"
